@@ -259,6 +259,24 @@ class Gen(object):
         self.declare(name, EVENT)
         return st
 
+    def result_variable(self, ty, avoid=None):
+        '''the variable a selection stores into: a new one, or (30 %) one of that type declared before'''
+        same = [v for v, t in self.vars_of(lambda t: t == ty) if v != avoid]
+        if same and self.rng.random() < 0.3:
+            return self.rng.choice(same)
+        return self.fresh('s' if ty[0] == 'set' else 'i')
+
+    def element2(self, name, ty):
+        r = self.rng
+        i = r.randint(0, 3)
+        j = r.choice([x for x in range(4) if x != i])
+        second = T(om.integer(j), INT)
+        ints = self.vars_of(lambda t: t == INT)
+        if ints and r.random() < 0.3:
+            second = T(om.var(r.choice(ints)[0]), INT)
+        inner = T(om.index(T(om.var(name), ('array2', ty)), T(om.integer(i), INT)), ('array', ty))
+        return T(om.index(inner, second), ty)
+
     def legacy_keyword(self, inv):
         '''the optional statement keyword of the old syntax: bridge EE::f(..), transform KL::op(..) / inst.op(..)'''
         if self.rng.random() < 0.6:
@@ -311,6 +329,9 @@ class Gen(object):
             if e is not None:
                 return e
         if k < 0.60 and ty in (INT, STR):
+            mats = self.vars_of(lambda t: t == ('array2', ty))
+            if mats and r.random() < 0.5:
+                return self.element2(r.choice(mats)[0], ty)
             arrs = self.vars_of(lambda t: t == ('array', ty))
             if arrs:
                 return T(om.index(T(om.var(r.choice(arrs)[0]), ('array', ty)), T(om.integer(r.randint(0, 2)), INT)), ty)
@@ -409,6 +430,15 @@ class Gen(object):
             st = om.assign(T(om.var(name), t), src)
             self.declare(name, t)
             return st
+        if k == 'array' and r.random() < 0.35:
+            # an element of a two-dimensional array: different subscripts, the second one also an expression
+            ty = r.choice((INT, STR))
+            mats = self.vars_of(lambda t: t == ('array2', ty))
+            name = r.choice(mats)[0] if mats and r.random() < 0.6 else self.fresh('mat')
+            e = self.expr(ty, 2)
+            st = om.assign(self.element2(name, ty), e)
+            self.declare(name, ('array2', ty))
+            return st
         if k == 'array':
             ty = r.choice((INT, STR))
             arrs = self.vars_of(lambda t: t == ('array', ty))
@@ -465,7 +495,7 @@ class Gen(object):
             kl = r.choice(list(CLASSES))
             card = r.choice(('any', 'many'))
             where = self.expr(BOOL, 2, selected_kind=kl) if r.random() < 0.5 else None
-            name = self.fresh('s' if card == 'many' else 'i')
+            name = self.result_variable(('set', kl) if card == 'many' else ('inst', kl))
             st = om.select_from(card, name, kl, where)
             self.declare(name, ('set', kl) if card == 'many' else ('inst', kl))
             return st
@@ -489,7 +519,7 @@ class Gen(object):
                 return None
             card = r.choice(('one', 'any', 'many', 'many'))
             where = self.expr(BOOL, 2, selected_kind=cur) if r.random() < 0.4 else None
-            name = self.fresh('s' if card == 'many' else 'i')
+            name = self.result_variable(('set', cur) if card == 'many' else ('inst', cur), avoid=n)
             h = T(om.self_(), t) if n == 'self' else self.handle(n)
             st = om.select_related(card, name, h, steps, where)
             self.declare(name, ('set', cur) if card == 'many' else ('inst', cur))
